@@ -370,6 +370,20 @@ def handler_calls(log):
     return [e for e in log if not e.startswith('au.')]
 
 
+def expand_runs(log):
+    """undo the run merging of read entries: rc.1.5-7 -> rc.1.5, rc.1.6, rc.1.7 (runs are merged across
+    requests, so two logs of the same calls can be split differently when other entries intervene)"""
+    out = []
+    for e in log:
+        if e[:3] in ('rc.', 'rd.', 'rh.', 'ri.'):
+            pre, rng = e.rsplit('.', 1)
+            a, b = rng.split('-')
+            out.extend(f'{pre}.{k}' for k in range(int(a), int(b) + 1))
+        else:
+            out.append(e)
+    return out
+
+
 def auth_calls(log):
     return [e for e in log if e.startswith('au.')]
 
